@@ -155,7 +155,7 @@ man = {
     "engines": [
         {"name": "lean-model", "path": "lean", "serves_properties": sorted(P), "kind_free_text": "Lean 4 executable model (LzModel), proofs (LzProofs), compiled driver lzdriver"},
         {"name": "harness", "path": "harness", "serves_properties": sorted(P), "kind_free_text": "Go harness: seeded script generators, in-process execution of the real code (-tags verif), oracles"},
-        {"name": "extract", "path": "tools/extract", "serves_properties": ["C01", "C03", "C04", "C05", "C09", "C10", "C11", "C12", "C13", "C15", "C16", "C17", "C20"], "kind_free_text": "go/ast translator regenerating LzModel/Generated/Facts.lean (constants, schema, tags, package state) and Generated/Code*.lean (Lean translation, per topic, of the bodies of the configuration functions, XZCost, hashValue, Block.Len, the ParserBuffer and DecoderBuffer methods, hash.init/reset/shiftOffsets, the hash and double-hash dictionaries' init/Reset/Shrink, hashParser.init, bucketHash.reset, suffix/lcp.go InvertSA and _lcp, suffix/segments.go Segments and scanLCP, bitset.go clear/memberBefore/memberAfter) on every run"},
+        {"name": "extract", "path": "tools/extract", "serves_properties": ["C01", "C03", "C04", "C05", "C06", "C08", "C09", "C10", "C11", "C12", "C13", "C15", "C16", "C17", "C18", "C20"], "kind_free_text": "go/ast translator regenerating LzModel/Generated/Facts.lean (constants, schema, tags, package state) and Generated/Code*.lean (Lean translation, per topic, of the bodies of the configuration functions, XZCost, hashValue, Block.Len, the ParserBuffer and DecoderBuffer methods, hash.init/reset/shiftOffsets, the hash and double-hash dictionaries' init/Reset/Shrink, hashParser.init, bucketHash.reset, suffix/lcp.go InvertSA and _lcp, suffix/segments.go Segments and scanLCP, bitset.go clear/memberBefore/memberAfter, the Decoder layer Write/WriteByte/WriteBlock/Flush/Reset, wrap.go, and — translation only, proof pending — hashParser.Parse) on every run"},
     ],
     "checks": [],
     "not_applicable": [],
